@@ -94,12 +94,12 @@ pub fn part_for(prop: &str, tier: Tier, seed: u64) -> SeqPart {
         },
         "C18" => SeqPart {
             name: "seq-ident",
-            bias: Bias { put: 12, begin: 3, write: 6, finish: 3, abort: 0, remove: 1, rr: 0, checkpoint: 0, get_range: 0, big: 5, max_steps: 25, ..base },
+            bias: Bias { put: 12, begin: 4, write: 7, finish: 3, abort: 2, remove: 1, rr: 0, checkpoint: 0, get_range: 0, big: 5, max_steps: 25, ..base },
             lenses: Lenses { ident: true, ..Default::default() },
             nontrivial: |e| e.has("multi_chunk") || e.has("empty_chunk"),
             quick_cases: 300,
             thorough_factor: 12,
-            rule: "E1 histories of streamed puts with generated chunkings (empty chunks, chunks >8 KiB and >64 KiB, multi-write transactions); after each commit get_item == {blake3(content) computed one-shot by the harness, len} and the file at cas/hh/hh/rest (path computed by the harness) holds the bytes; non-trivial = content delivered in >=2 non-empty chunks or with an empty chunk; distinct by case hash",
+            rule: "E1 histories of streamed puts with generated chunkings (empty chunks, chunks >8 KiB and >64 KiB, multi-write transactions, interleaved with abandoned transactions); after each commit get_item == {blake3(content) computed one-shot by the harness, len} and the file at cas/hh/hh/rest (path computed by the harness) holds the bytes; non-trivial = content delivered in >=2 non-empty chunks or with an empty chunk; distinct by case hash",
         },
         "C20" => SeqPart {
             name: "seq-ondisk",
